@@ -162,10 +162,32 @@ DEMO[C18g]="F:earlystopped_history_demo_test.go=pkg/suggestion/v1beta1/goptuna|.
 DEMO[C19g]="F:seed_c19g_demo_test.go=pkg/db/v1beta1/postgres|./pkg/db/v1beta1/postgres/|-run TestSeedC19g"
 DEMO[C20g]="F:c20g_templates_authz_demo_test.go=pkg/ui/v1beta1|./pkg/ui/v1beta1/|-run TestC20g"
 
+DEMO[C01h]="F:c01h_demo_test.go=pkg/controller.v1beta1/experiment|./pkg/controller.v1beta1/experiment/experiment_controller.go ./pkg/controller.v1beta1/experiment/experiment_controller_status.go ./pkg/controller.v1beta1/experiment/experiment_controller_util.go ./pkg/controller.v1beta1/experiment/c01h_demo_test.go|-run TestC01hNoTrialAfterSecondVerdict"
+DEMO[C02h]="F:seed_c02h_demo_test.go=pkg/controller.v1beta1/experiment/manifest|./pkg/controller.v1beta1/experiment/manifest/|-run TestSeedC02h"
+DEMO[C03h]="F:c03h_demo_test.go=pkg/controller.v1beta1/experiment/c03hdemo|./pkg/controller.v1beta1/experiment/c03hdemo/|"
+DEMO[C04h]="F:restart_rejected_test.go=pkg/controller.v1beta1/experiment/c04hdemo|./pkg/controller.v1beta1/experiment/c04hdemo/|"
+DEMO[C05h]="F:c05h_demo_test.go=pkg/controller.v1beta1/experiment/util|./pkg/controller.v1beta1/experiment/util/|-run TestC05h"
+DEMO[C06h]="F:earlystopped_retained_test.go=pkg/controller.v1beta1/trial/c06hdemo|./pkg/controller.v1beta1/trial/c06hdemo/|"
+DEMO[C07h]="F:finalizer_demo_test.go=pkg/controller.v1beta1/trial/c07hdemo|./pkg/controller.v1beta1/trial/c07hdemo/|"
+DEMO[C08h]="F:c08h_demo_test.go=pkg/controller.v1beta1/suggestion/suggestionclient,c08h_controller_demo_test.go=pkg/controller.v1beta1/suggestion/c08hdemo|./pkg/controller.v1beta1/suggestion/suggestionclient/ ./pkg/controller.v1beta1/suggestion/c08hdemo/|-run C08h"
+DEMO[C09h]="F:c09h_demo_test.go=pkg/controller.v1beta1/suggestion/suggestionclient|./pkg/controller.v1beta1/suggestion/suggestionclient/|-run TestC09h"
+DEMO[C10h]="F:c10h_last_condition_demo_test.go=pkg/controller.v1beta1/suggestion/suggestionclient|./pkg/controller.v1beta1/suggestion/suggestionclient/|-run TestC10hLastConditionIsSentWhateverTheTimestamps"
+DEMO[C11h]="F:c11h_demo_test.go=pkg/controller.v1beta1/trial/c11hdemo|./pkg/controller.v1beta1/trial/c11hdemo/|"
+DEMO[C12h]="F:inject_webhook_katibconfig_change_test.go=pkg/webhook/v1beta1/pod|./pkg/webhook/v1beta1/pod/|-run TestMutateFollowsKatibConfigChange"
+DEMO[C13h]="F:c13h_demo_test.go=pkg/metricscollector/v1beta1/file-metricscollector|./pkg/metricscollector/v1beta1/file-metricscollector/|-run TestC13hEmptyValueOccurrencesAreReported"
+DEMO[C14h]="F:admission_soundness_demo_test.go=pkg/webhook/v1beta1/experiment/validator|./pkg/webhook/v1beta1/experiment/validator/|-run TestAdmittedExperimentWithLabelReferenceCanBuildTrials"
+DEMO[C15h]="F:c15h_demo_test.go=pkg/webhook/v1beta1/experiment/validator|./pkg/webhook/v1beta1/experiment/validator/|-run TestC15h"
+DEMO[C16h]="F:restart_cache_lag_test.go=pkg/controller.v1beta1/experiment/c16hdemo|./pkg/controller.v1beta1/experiment/c16hdemo/|"
+DEMO[C17h]="F:c17h_dial_demo_test.go=pkg/controller.v1beta1/suggestion/suggestionclient|./pkg/controller.v1beta1/suggestion/suggestionclient/|-run TestC17hDialledAddressIsTheSuggestionsOwnService"
+DEMO[C18h]="F:c18h_demo_test.go=pkg/suggestion/v1beta1/goptuna|./pkg/suggestion/v1beta1/goptuna/|-run TestC18hAcceptedSearchSpacesAreServed"
+DEMO[C19h]="TREE19|./pkg/db/v1beta1/mysql/ ./pkg/db/v1beta1/postgres/|-run TestC19h"
+DEMO[C20h]="F:c20h_demo_test.go=pkg/ui/v1beta1|./pkg/ui/v1beta1/|-run TestC20h"
+
 place() { # copy demo files of seed $1 into the worktree
   local ID=$1 S=/tmp/seed/$1 spec=${DEMO[$1]}; local dest=${spec%%|*}
   case $dest in
     TREE) cp -r $S/demo/pkg . ;;
+    TREE19) cp $S/demo/mysql/c19h_demo_test.go pkg/db/v1beta1/mysql/; cp $S/demo/postgres/c19h_demo_test.go pkg/db/v1beta1/postgres/ ;;
     F:*) IFS=',' read -ra PAIRS <<< "${dest#F:}"; for pr in "${PAIRS[@]}"; do f=${pr%%=*}; d=${pr#*=}; mkdir -p $d; cp $S/demo/$f $d/; done ;;
     SPECIAL) mkdir -p pkg/controller.v1beta1/experiment/c03demo; cp $S/demo/c03_reconcile_demo_test.go pkg/controller.v1beta1/experiment/c03demo/; cp $S/demo/c03_status_util_demo_test.go pkg/controller.v1beta1/experiment/util/ ;;
     *) mkdir -p $dest; cp $S/demo/*.go $dest/ ;;
